@@ -211,7 +211,7 @@ def gen_request(prj, rng, conn_size=4000, for_write=False, tag=None, want=None):
             in_array, avail = False, 1
             shape.append(".m")
     # ---- .bit of an integer ----------------------------------------------------------------------------------------------
-    if dtype.name in ("SINT", "INT", "DINT", "LINT") and rng.random() < (0.25 if not for_write else 0.3):
+    if dtype.name in rpj.INT_ATOMS and rng.random() < (0.25 if not for_write else 0.3):   # signed AND unsigned integers
         bit = rng.choice([0, 1, 7, 8 * dtype.size - 1, rng.randrange(8 * dtype.size)])
         bit = min(bit, 8 * dtype.size - 1)
         return Req(f"{text}.{bit}", tag, dtype, off, 1, False, "bit", bit=bit, avail=1, shape="".join(shape) + ":bit")
